@@ -345,6 +345,75 @@ func LoadReplay(path string) *ReplayReq {
 	return r
 }
 
+// ---------------------------------------------------------------- variant binaries
+
+// SubRun is set when this process is a variant build (one constant of the code under test changed
+// through the overlay) started by the normal check to contribute sub-runs to its report.
+var SubRun bool
+
+type subDump struct {
+	Cov        map[string]any
+	Sub        map[string]any
+	Known      map[string]*KnownStat
+	Violations []Violation
+	Samples    []any
+	Exhaustive bool
+	Assume     []string
+}
+
+// Dump prints the report for the parent process instead of finishing it.
+func (r *Report) Dump() int {
+	b, err := json.Marshal(subDump{r.Cov, r.Sub, r.Known, r.Violations, r.samples, r.exhaustive, r.Assume})
+	if err != nil {
+		HarnessError("sub-run dump: %v", err)
+	}
+	os.Stdout.Write(b)
+	return 0
+}
+
+// Merge folds a variant process's dump into this report.
+func (r *Report) Merge(prefix string, raw []byte) {
+	var d subDump
+	if err := json.Unmarshal(raw, &d); err != nil {
+		HarnessError("sub-run merge: %v", err)
+	}
+	for _, k := range []string{"states", "transitions", "traces_validated_against_impl", "evaluations", "distinct_nontrivial"} {
+		if v, ok := d.Cov[k].(float64); ok {
+			r.Add(k, int(v))
+		}
+	}
+	r.mu.Lock()
+	defer r.mu.Unlock()
+	for k, v := range d.Cov {
+		switch k {
+		case "states", "transitions", "traces_validated_against_impl", "evaluations", "distinct_nontrivial", "caps_hit":
+		default:
+			r.Cov[prefix+k] = v
+		}
+	}
+	for k, v := range d.Sub {
+		r.Sub[prefix+k] = v
+	}
+	for id, k := range d.Known {
+		if cur := r.Known[id]; cur == nil {
+			r.Known[id] = k
+		} else {
+			cur.Count += k.Count
+		}
+	}
+	r.Violations = append(r.Violations, d.Violations...)
+	for _, s := range d.Samples {
+		if len(r.samples) < 12 {
+			r.samples = append(r.samples, s)
+		}
+	}
+	if !d.Exhaustive {
+		r.exhaustive = false
+		caps, _ := r.Cov["caps_hit"].([]string)
+		r.Cov["caps_hit"] = append(caps, prefix+"variant run hit a cap")
+	}
+}
+
 // HarnessError aborts with exit 2 (never a VIOLATION line).
 func HarnessError(format string, a ...any) {
 	fmt.Fprintf(os.Stderr, "HARNESS-ERROR: "+format+"\n", a...)
